@@ -25,8 +25,8 @@ MODEL = {"quick": ["DebounceMC_frr.cfg", "DebounceMC_k8s.cfg", "DebounceMC_frr_l
 PLAN = {"quick": {"frr": ("DebounceMC_frr_edges.cfg", 700, 40), "k8s": ("DebounceMC_k8s_edges.cfg", 600, 0)},
         "thorough": {"frr": ("DebounceMC_frr_edges.cfg", None, 200), "k8s": ("DebounceMC_k8s_edges.cfg", None, 0)}}
 # role B by seeded TLC simulation: (cfg suffix, walks, depth, delay profile)
-SIM = {"quick": [("_burst", 40, 70, "burst")],
-       "thorough": [("_sim", 1500, 30, "edge"), ("_burst", 400, 70, "burst")]}
+SIM = {"quick": [("_burst", 40, 70, "burst"), ("_hammer", 8, 1000, "hammer")],
+       "thorough": [("_sim", 1500, 30, "edge"), ("_burst", 400, 70, "burst"), ("_hammer", 60, 1000, "hammer")]}
 REPS = {"quick": {"frr": 1, "k8s": 1}, "thorough": {"frr": 8, "k8s": 3}}
 MAXLEN = 18
 
@@ -70,15 +70,17 @@ def decorate(steps, rnd, profile="edge"):
             st["d"] = 0
         elif profile == "burst":       # "at any rate": many submissions per timer period
             st["d"] = rnd.choice([0, 0, rnd.randint(0, 400), rnd.randint(0, 4000)])
+        elif profile == "hammer":      # hundreds of submissions across several timer expiries
+            st["d"] = rnd.choice([0, 0, rnd.randint(0, 300), rnd.randint(0, 600)])
         else:
             st["d"] = delays(rnd)
         out.append(st)
     return out
 
 
-def mk_script(sid, variant, target, steps, beats):
+def mk_script(sid, variant, target, steps, beats, free=False):
     return {"id": sid, "variant": variant, "target": target, "reload_us": RELOAD_US, "retry_us": RETRY_US,
-            "beats": beats, "steps": steps}
+            "beats": beats, "free": free, "steps": steps}
 
 
 def gen_scripts(chk):
@@ -108,13 +110,14 @@ def gen_scripts(chk):
             raw, sres = vlib.simulate_walks(chk, "DebounceMC", simcfg, num, depth, chk.seed)
             if not raw:
                 raise vlib.Inconclusive("simulation produced no walks: " + sres.out[-800:])
+            free = profile == "hammer"
             for n, w in enumerate(raw):
                 scripts.append(mk_script("%s-s%s%d" % (variant, suffix, n), variant, target,
-                                         decorate([o["act"] for o in w], rnd, profile), beats))
-            if profile == "burst" and nsm:
+                                         decorate([o["act"] for o in w], rnd, profile), beats, free))
+            if profile != "edge" and nsm:
                 for n, w in enumerate(raw[:max(4, nsm // 5)]):
                     scripts.append(mk_script("sm-s%s%d" % (suffix, n), variant, "sm",
-                                             decorate([o["act"] for o in w], rnd, profile), beats))
+                                             decorate([o["act"] for o in w], rnd, profile), beats, free))
             vlib.log("  %s: %d simulated walks (depth %d, %s delays)" % (simcfg, len(raw), depth, profile))
     return scripts
 
